@@ -19,7 +19,8 @@ Inductive rleaf :=
 | RJoin (uid : nat) (k : task)
 | RDead                                  (* its one-shot request was dropped: removed at the next step *)
 | RBoth (a b : rslot) (x1 x2 : nat) (k : task)     (* join! of two requests *)
-| RRace (a b : rslot) (x : nat) (k : task).        (* select_biased! of two requests *)
+| RRace (a b : rslot) (x : nat) (k : task)         (* select_biased! of two requests *)
+| RBothJ (uid : nat) (b : rslot) (x : nat) (k : task).   (* join! of a JoinHandle on strand uid and a request *)
 Record rframe := mkRF { rf_rid : nat; rf_x : nat; rf_body : task; rf_k : task; rf_buf : list nat; rf_closed : bool }.
 Record rstrand := mkRS { s_uid : nat; s_env : env; s_leaf : rleaf; s_stack : list rframe }.
 Record rbag := mkRB { b_strands : list rstrand; b_next : nat; b_fin : list nat }.
@@ -69,6 +70,8 @@ Fixpoint run_strand (fuel : nat) (s : rstrand) (nu n : nat) (acc : list rstrand)
     | TBoth tg1 e1 x1 tg2 e2 x2 k =>
         Some (Some (mkRS u en (RBoth (SWait n) (SWait (S n)) x1 x2 k) st), acc, nu, S (S n),
               ro_app o (mkRO [mkRE tg1 (eval en e1) [] n 1; mkRE tg2 (eval en e2) [] (S n) 1] []))
+    | TBothJ h tg e x k =>
+        Some (Some (mkRS u en (RBothJ (getd 0 h en) (SWait n) x k) st), acc, nu, S n, ro_app o (mkRO [mkRE tg (eval en e) [] n 1] []))
     | TRace tg1 e1 tg2 e2 x k =>
         Some (Some (mkRS u en (RRace (SWait n) (SWait (S n)) x k) st), acc, nu, S (S n),
               ro_app o (mkRO [mkRE tg1 (eval en e1) [] n 1; mkRE tg2 (eval en e2) [] (S n) 1] []))
@@ -92,7 +95,7 @@ Fixpoint run_strand (fuel : nat) (s : rstrand) (nu n : nat) (acc : list rstrand)
               else Some (Some s, acc, nu, n, o)
       end
     end
-  | RReq _ _ _ | RJoin _ _ => Some (Some s, acc, nu, n, o)
+  | RReq _ _ _ | RJoin _ _ | RBothJ _ _ _ _ => Some (Some s, acc, nu, n, o)   (* RBothJ moves only once [unblock] has turned it into an RBoth *)
   | RDead => Some (None, acc, nu, n, o)
   | RBoth a b x1 x2 k =>
       match a, b with
@@ -118,9 +121,17 @@ Definition can_move (b : rbag) (s : rstrand) : bool :=
   | RDead => true
   | RBoth a b _ _ _ => match a, b with SWait _, _ | _, SWait _ => false | _, _ => true end
   | RRace a b _ _ => match a, b with SVal _, _ | _, SVal _ => true | SGone, SGone => true | _, _ => false end
+  (* the awaited strand has finished and the request is answered or gone (a strand whose request was
+     dropped is discarded only once nothing else can wake it: when the awaited strand has finished) *)
+  | RBothJ uid q _ _ => (memn uid (b_fin b) || negb (existsb (fun r => Nat.eqb (s_uid r) uid) (b_strands b)))
+                        && match q with SWait _ => false | _ => true end
   end.
 Definition unblock (s : rstrand) : rstrand :=
-  match s_leaf s with RJoin _ k => mkRS (s_uid s) (s_env s) (RRun k) (s_stack s) | _ => s end.
+  match s_leaf s with
+  | RJoin _ k => mkRS (s_uid s) (s_env s) (RRun k) (s_stack s)
+  | RBothJ _ q x k => mkRS (s_uid s) (s_env s) (RBoth (SVal 0) q 23 x k) (s_stack s)
+  | _ => s
+  end.
 
 Fixpoint pick (b : rbag) (pre l : list rstrand) : option (list rstrand * rstrand * list rstrand) :=
   match l with
@@ -220,6 +231,12 @@ Definition deliver_strand (rid v : nat) (s : rstrand) : bool * rstrand :=
       (existsb (fun fr => Nat.eqb (rf_rid fr) rid) (s_stack s),
        mkRS (s_uid s) (s_env s) (s_leaf s)
             (map (fun fr => if Nat.eqb (rf_rid fr) rid then mkRF (rf_rid fr) (rf_x fr) (rf_body fr) (rf_k fr) (rf_buf fr ++ [v]) (rf_closed fr) else fr) (s_stack s)))
+  | RBothJ uid b x k =>
+      let (tb, b') := fill_slot rid v b in
+      if tb then (true, mkRS (s_uid s) (s_env s) (RBothJ uid b' x k) (s_stack s)) else
+      (existsb (fun fr => Nat.eqb (rf_rid fr) rid) (s_stack s),
+       mkRS (s_uid s) (s_env s) (s_leaf s)
+            (map (fun fr => if Nat.eqb (rf_rid fr) rid then mkRF (rf_rid fr) (rf_x fr) (rf_body fr) (rf_k fr) (rf_buf fr ++ [v]) (rf_closed fr) else fr) (s_stack s)))
   | RReq r x k => if Nat.eqb r rid then (true, mkRS (s_uid s) (setv x v (s_env s)) (RRun k) (s_stack s)) else
       (existsb (fun fr => Nat.eqb (rf_rid fr) rid) (s_stack s),
        mkRS (s_uid s) (s_env s) (s_leaf s)
@@ -254,6 +271,7 @@ Definition kill_waiter (rid : nat) (s : rstrand) : rstrand :=
   match s_leaf s with
   | RBoth a b x1 x2 k => close_frames rid (mkRS (s_uid s) (s_env s) (RBoth (gone_slot rid a) (gone_slot rid b) x1 x2 k) (s_stack s))
   | RRace a b x k => close_frames rid (mkRS (s_uid s) (s_env s) (RRace (gone_slot rid a) (gone_slot rid b) x k) (s_stack s))
+  | RBothJ uid b x k => close_frames rid (mkRS (s_uid s) (s_env s) (RBothJ uid (gone_slot rid b) x k) (s_stack s))
   | _ => close_frames rid s
   end.
 Fixpoint dropreq (rid : nat) (c : rc) : rc :=
@@ -347,7 +365,7 @@ Fixpoint task_abort_free (t : task) : bool :=
   match t with
   | TRet => true
   | TEmit _ _ k | TNotify _ _ k | TReq _ _ _ k | TJoin _ k | TYield _ k => task_abort_free k
-  | TBoth _ _ _ _ _ _ k | TRace _ _ _ _ _ k => task_abort_free k
+  | TBoth _ _ _ _ _ _ k | TBothJ _ _ _ _ k | TRace _ _ _ _ _ k => task_abort_free k
   | TForEach _ _ _ b k => task_abort_free b && task_abort_free k
   | TSpawn c _ k => task_abort_free c && task_abort_free k
   | TAbortT _ _ | TAbortC _ _ | TLegReq _ _ _ _ | TBothL _ _ _ _ _ _ _ => false
